@@ -179,6 +179,8 @@ def scale_by_hs(repo, rep):
 
 
 def run(repo, rep, tier):
+    from .round7b import hygiene
+    hygiene(repo, rep, "C10", ('wavespectra.specarray', 'wavespectra.core.xrstats', 'wavespectra.core.npstats'), falsy=True)
     rep.rule("R-C10-6", "(shared with C01) ratio statistics divide moments taken over one band by one quadrature: otherwise |m1|/m0 can exceed 1 and "
                         "the spread leaves [0, 81.03] / becomes NaN")
     from .shared import same_band_ratios
